@@ -673,6 +673,14 @@ class Body:
                 return ("const", c["ty"], v)
         if c["ty"].startswith("{closure@") or "closure" in c["ty"]:
             return ("const", c["ty"], c.get("text"))
+        if "uneval" in c:
+            # a named constant of the crate with a straight-line initialiser: the value it names
+            cb = self.prog.const_body(c["uneval"]) if hasattr(self.prog, "const_body") else None
+            if cb is not None:
+                try:
+                    return cb.return_expr()
+                except Exception:
+                    pass
         return ("const", c["ty"], c.get("text"))
 
     def operand_expr(self, op, bb, idx):
@@ -760,6 +768,11 @@ class Body:
         site = bb if self.promoted_of is None else ("promoted", self.promoted_of.promoted_index(self), bb)
         if "path" in c:
             e = ("call", c["name"], c["path"], args, site)
+            if c["name"] == "size" and c["path"] == "ndarray::Dimension::size" and len(args) == 1:
+                # x.raw_dim().size() is, by ndarray's definition of len(), x.len(): one spelling for the element count
+                a0 = strip(args[0])
+                if isinstance(a0, tuple) and a0[0] == "call" and a0[1] == "raw_dim" and "ndarray::" in a0[2] and len(a0[3]) == 1:
+                    e = ("call", "len", "ndarray::impl_methods::<impl ndarray::ArrayBase<S, D>>::len", a0[3], site)
         elif "closure" in c:
             e = ("call", "<closure>", c["closure"], args, site)
         else:
@@ -873,8 +886,23 @@ class Program:
         self.traits = {t["path"]: t for t in facts["traits"]}
         self.unsafe_blocks = facts["unsafe_blocks"]
         self.exported = set(facts["exported"])
+        self._const_raw = {r["key"]: r for r in facts.get("consts", [])}
+        self._const_bodies = {}
         self._closure_sites = None
         self._callers = None
+
+    def const_body(self, key):
+        """Body of a named constant of the crate (kind Const), or None"""
+        if key not in self._const_bodies:
+            raw = self._const_raw.get(key)
+            b = None
+            if raw is not None and len(raw.get("blocks", [])) <= 4:
+                try:
+                    b = Body(self, dict(raw, arg_count=raw.get("arg_count", 0)))
+                except Exception:
+                    b = None
+            self._const_bodies[key] = b
+        return self._const_bodies[key]
 
     def tracked(self, body):
         """the same body with mutation-through-&mut tracked as definitions (Engine D)"""
